@@ -243,6 +243,19 @@ def stores_own_name(repo, ci, fi, depth=3, max_paths=4096):
 # class-level configuration plumbing (shared by C05, C06, C07, C10)
 # ---------------------------------------------------------------------------
 
+def _strip_copy(e):
+    """E of an order-preserving full copy ``tuple(E)`` / ``list(E)`` / ``E[:]`` (the positions of
+    the copy are the positions of E)"""
+    while True:
+        if isinstance(e, ast.Call) and isinstance(e.func, ast.Name) and e.func.id in ('tuple', 'list') and len(e.args) == 1 and not e.keywords \
+                and not isinstance(e.args[0], ast.Starred):
+            e = e.args[0]
+        elif isinstance(e, ast.Subscript) and isinstance(e.slice, ast.Slice) and e.slice.lower is None and e.slice.upper is None and e.slice.step is None:
+            e = e.value
+        else:
+            return e
+
+
 def _position_source(func, call):
     """canonical text of E when the first argument of ``call`` enumerates E (the index of
     ``enumerate(E)``): through a loop / comprehension target, or as the first parameter of a
@@ -260,7 +273,7 @@ def _position_source(func, call):
             if isinstance(it, ast.Call) and isinstance(it.func, ast.Name) and it.func.id == 'enumerate' and len(it.args) == 1 and not it.keywords \
                     and isinstance(target, ast.Tuple) and target.elts and isinstance(target.elts[0], ast.Name) and target.elts[0].id == pos.id \
                     and any(x is call for x in ast.walk(owner)):
-                return canon(it.args[0])
+                return canon(_strip_copy(it.args[0]))
     for f in ast.walk(func):
         if isinstance(f, ast.FunctionDef) and f is not func and any(x is call for x in ast.walk(f)):
             params = [x.arg for x in f.args.args]
@@ -273,7 +286,7 @@ def _position_source(func, call):
                     if isinstance(z, ast.Call) and isinstance(z.func, ast.Name) and z.func.id == 'zip' and len(z.args) == 1 and isinstance(z.args[0], ast.Starred):
                         e = z.args[0].value
                         if isinstance(e, ast.Call) and isinstance(e.func, ast.Name) and e.func.id == 'enumerate' and len(e.args) == 1:
-                            return canon(e.args[0])
+                            return canon(_strip_copy(e.args[0]))
                 if isinstance(m_, ast.Call) and isinstance(m_.func, ast.Name) and m_.func.id == f.name and len(m_.args) == 1 and isinstance(m_.args[0], ast.Starred):
                     # f(*pair) for pair in enumerate(E)
                     pass
@@ -715,3 +728,55 @@ def check_no_class_level_accumulator(ctx, rule, cls_names, clause=''):
                     ctx.violation(rule, fi, '%s.%s = %s; %s' % (cname, attr, canon(st.value)[:20], stmt_text(x)[:70]), 'a container created in the class body is filled by the methods of the class: it is shared by every instance and every packet class declared in the process, so what one declaration leaves in it (for instance when it is rejected half way) is seen by the next', getattr(x, 'lineno', st.lineno), clause=clause, witness=True)
     if not n:
         ctx.holds(rule, ('bisturi/field.py', ', '.join(cls_names)), 'no class-level container is filled by the methods of %s' % ', '.join(cls_names), 'nothing is carried from one declaration to the next', 0, clause=clause)
+
+
+def check_conf_dict_holds_no_per_class_tables(ctx, rule, clause=None):
+    """Round 9.  ``cls.__bisturi__`` is the dictionary object the user wrote in the class body
+    (``make_configuration`` keeps ``attrs.get('__bisturi__', ...)`` as it is), and one object may
+    be given to several classes (``__bisturi__ = OPTIONS``).  Nothing that is computed per class
+    and read back later (the field table, a memo of the constructor) may be kept in it: the class
+    that writes last decides for all of them.  The one entry the library has always written,
+    ``original_fields_in_class``, is read by the specialization builder only"""
+    repo = ctx.repo
+    pb = repo.cls('PacketClassBuilder')
+    mk = pb.methods.get('make_configuration')
+    if mk is None:
+        raise Undecided('anchor PacketClassBuilder.make_configuration not found')
+    own_copy = None
+    for n in ast.walk(mk.node):
+        if isinstance(n, ast.Assign) and canon(n.targets[0]) == 'self.bisturi_conf':
+            v = n.value
+            own_copy = not (isinstance(v, ast.Call) and canon(v.func) == 'self.attrs.get')
+    kw = dict(clause=clause) if clause else {}
+    if own_copy is None:
+        ctx.undecided(rule, mk, 'make_configuration', 'cannot see where the class configuration comes from', mk.node.lineno, **kw)
+        return
+
+    def is_conf(e):
+        t = canon(e)
+        return t == 'self.bisturi_conf' or t.endswith('.__bisturi__') or t == 'bisturi_conf'
+    writes, reads = {}, {}
+    for fi in repo.functions.values():
+        for n in ast.walk(fi.node):
+            if isinstance(n, ast.Subscript) and is_conf(n.value) and isinstance(n.slice, ast.Constant) and isinstance(n.slice.value, str):
+                (reads if isinstance(n.ctx, ast.Load) else writes).setdefault(n.slice.value, []).append((fi, n))
+            elif isinstance(n, ast.Call) and isinstance(n.func, ast.Attribute) and is_conf(n.func.value) and n.args and isinstance(n.args[0], ast.Constant) and isinstance(n.args[0].value, str):
+                if n.func.attr == 'setdefault':
+                    writes.setdefault(n.args[0].value, []).append((fi, n))
+                    reads.setdefault(n.args[0].value, []).append((fi, n))
+                elif n.func.attr in ('get', 'pop'):
+                    reads.setdefault(n.args[0].value, []).append((fi, n))
+    n_ = 0
+    for key, ws in sorted(writes.items()):
+        rs = [(f, x) for f, x in reads.get(key, []) if not (f.cls is not None and f.cls.name == 'PacketSpecializationClassBuilder')]
+        fi, node = ws[0]
+        st = 'configuration entry %r written in %s' % (key, fi.qual)
+        n_ += 1
+        if own_copy:
+            ctx.holds(rule, fi, st, 'the configuration is a copy made for this class', node.lineno, **kw)
+        elif rs:
+            ctx.violation(rule, fi, st + ', read in %s' % rs[0][0].qual, 'the configuration dictionary is the object the user wrote in the class body and may be given to several classes (__bisturi__ = OPTIONS): what one class keeps there is read back for another -- the class declared (or used) last decides the fields, bit positions and defaults of all of them', node.lineno, witness=True, **kw)
+        else:
+            ctx.holds(rule, fi, st, 'written for introspection only: nothing at run time reads it back', node.lineno, **kw)
+    if not n_:
+        ctx.holds(rule, mk, 'no per-class entry is written into the class configuration', 'nothing to share', mk.node.lineno, **kw)
